@@ -324,8 +324,9 @@ where
         else if rest'.isEmpty then .err     -- trailing period
         else go p rest' fuel
 
-/-- `pep440Extension.init` on a fresh version (num empty). -/
-def pepInit (sys : System) (input0 : Bytes) : Outcome Version := do
+/-- `pep440Extension.init` on a fresh version (num empty): the version fields and the
+`pep440` details. -/
+def pepInitCore (sys : System) (input0 : Bytes) : Outcome (Version × Option Pep440) := do
   let input := Bytes.trimSpace input0
   -- every rune must be in (' ', 0x7F) or be '∞'
   if !((Bytes.runes input).all (fun r => (r.1 > 0x20 && r.1 < 0x7F) || r.1 == 0x221E)) then .err else
@@ -355,7 +356,16 @@ def pepInit (sys : System) (input0 : Bytes) : Outcome Version := do
   let (p, rest) := pepParseDev p rest
   let (p, rest) ← pepParseLocal p rest
   if !rest.isEmpty then .err else
-  .ok { p.v with ext := .pep p.ext }
+  .ok (p.v, p.ext)
+
+/-- `System.parse` for PyPI: `sys` is set when the Version is created and the extension
+is a `*pep440Extension`; restating both makes the shape of the result evident
+(`Props.C01.parse_wf`). -/
+def pepInit (sys : System) (input0 : Bytes) : Outcome Version :=
+  match pepInitCore sys input0 with
+  | .ok (v, e) => .ok { v with sys := sys, ext := .pep e }
+  | .err => .err
+  | .panic => .panic
 
 /-! ## version.go: the generic parser -/
 
@@ -460,8 +470,9 @@ where
 end PS
 
 open PS in
-/-- `versionParser.version` for systems other than Maven and PyPI. -/
-def parseGeneric (sys : System) (str : Bytes) (allowInf : Bool) : Outcome Version :=
+/-- `versionParser.version` for systems other than Maven and PyPI, up to (not including)
+the final `gemVersion` call. -/
+def parseGenericCore (sys : System) (str : Bytes) (allowInf : Bool) : Outcome Version :=
   let p : PS := { v := { sys := sys }, lex := { rest := str, prev := str, allowInf := allowInf } }
   -- leading v's
   let p : PS :=
@@ -547,13 +558,22 @@ def parseGeneric (sys : System) (str : Bytes) (allowInf : Bool) : Outcome Versio
   let v := { p.v with userNumCount := p.v.num.length }
   let v := if (sys == .rubygems || sys == .nuget) && v.num.length < 3
     then { v with num := v.num ++ List.replicate (3 - v.num.length) 0 } else v
-  if p.lex.err then .err else
-  if sys == .rubygems then
-    match gemInit str with
-    | .ok els => .ok { v with ext := .gem els }
-    | .err => .err
-    | .panic => .panic
-  else .ok v
+  if p.lex.err then .err else .ok v
+
+/-- `versionParser.version` for systems other than Maven and PyPI. `sys` is set when the
+Version is created and `ext` stays nil except for RubyGems (`gemVersion`); restating
+both makes the shape of the result evident (`Props.C01.parse_wf`). -/
+def parseGeneric (sys : System) (str : Bytes) (allowInf : Bool) : Outcome Version :=
+  match parseGenericCore sys str allowInf with
+  | .err => .err
+  | .panic => .panic
+  | .ok v =>
+    if sys == .rubygems then
+      match gemInit str with
+      | .ok els => .ok { v with sys := sys, ext := .gem els }
+      | .err => .err
+      | .panic => .panic
+    else .ok { v with sys := sys, ext := Ext.none }
 
 /-- `System.parse(str, allowInfinity)`. -/
 def parseInf (sys : System) (str : Bytes) (allowInf : Bool) : Outcome Version :=
